@@ -242,3 +242,84 @@ func (in *Inst) RawPointStore(o *Obs, m *Model) {
 	o.Checks += int64(len(m.Docs) + len(free))
 	o.Note("free", len(free), "next", next)
 }
+
+// Observe returns a canonical rendering of everything a client can see plus
+// (optionally) the raw bucket contents: used for differential before/after
+// comparisons where no expected value is needed.
+func (in *Inst) Observe(universe []int, queries []models.Query, raw bool) (string, error) {
+	var parts []any
+	info, err := in.Shard.Info()
+	if err != nil {
+		return "", fmt.Errorf("info: %w", err)
+	}
+	parts = append(parts, "count", info.PointCount)
+	if len(universe) > 0 {
+		res, err := in.Search(IdQuery(universe...), []string{"*"}, 100)
+		if err != nil {
+			return "", fmt.Errorf("select-all: %w", err)
+		}
+		type pd struct {
+			id  int
+			doc string
+		}
+		var docs []pd
+		for _, r := range res {
+			d, derr := ResultDoc(r)
+			if derr != nil {
+				return "", derr
+			}
+			docs = append(docs, pd{UUIDIndex(r.Id), DocString(Canon(d))})
+		}
+		sort.Slice(docs, func(i, j int) bool { return docs[i].id < docs[j].id })
+		for _, d := range docs {
+			parts = append(parts, d.id, d.doc)
+		}
+	}
+	for _, q := range queries {
+		res, err := in.Search(cloneQuery(q), nil, 0)
+		if err != nil {
+			parts = append(parts, QueryString(q), "ERR:"+err.Error())
+			continue
+		}
+		var items []string
+		for _, r := range res {
+			s := fmt.Sprint(UUIDIndex(r.Id))
+			if r.Distance != nil {
+				s += fmt.Sprintf("/d%.5g", *r.Distance)
+			}
+			if r.Score != nil {
+				s += fmt.Sprintf("/s%.5g", *r.Score)
+			}
+			items = append(items, s)
+		}
+		// ranked answers keep their order, filter answers are sets
+		if len(res) > 0 && res[0].Distance == nil && res[0].Score == nil {
+			sort.Strings(items)
+		}
+		parts = append(parts, QueryString(q), fmt.Sprint(items))
+	}
+	if raw {
+		d, err := in.Dump()
+		if err != nil {
+			return "", err
+		}
+		parts = append(parts, "raw", DumpDigest(d))
+	}
+	return fmt.Sprint(parts...), nil
+}
+
+// OpenImage opens an existing database file (e.g. a crash image) as a fresh
+// cold instance with the same configuration.
+func OpenImage(cfg InstCfg, path string) (*Inst, error) {
+	in := &Inst{Cfg: cfg}
+	if in.Cfg.MaxPointSize == 0 {
+		in.Cfg.MaxPointSize = 1 << 20
+	}
+	in.Cfg.Proxy = false
+	in.Col = models.Collection{UserId: "u", Id: "col", IndexSchema: cfg.Schema, UserPlan: models.UserPlan{Name: "p", MaxPointSize: in.Cfg.MaxPointSize, MaxCollectionPointCount: 1 << 30, MaxCollections: 10}}
+	in.Path = path
+	if err := in.open(); err != nil {
+		return nil, err
+	}
+	return in, nil
+}
